@@ -1,7 +1,6 @@
 From Coq Require Import Extraction ExtrOcamlBasic.
 From Common Require Import Bytes Drv Outcome.
 From Trie Require Import Nibbles Node Encode Model Spec.
-From C02 Require Import Model Guards.
 From C38 Require Import Model.
 Extraction "model.ml" drv_b2n drv_n2b drv_z_of_n drv_n_of_z drv_nat_of_n drv_n_of_nat
   keys_paged paging pairs spec_paging spec_page spec_pairs trie_of_entries bm_of_list guard_trim hex0x.
